@@ -6,7 +6,7 @@ import (
 	"verifharness/kit"
 )
 
-const rule = "solids (CSG trees of primitives, trilinear random fields, lattice-defined solids, lattice-aligned box arrangements; feature-size-controlled unions for coarse-to-fine) x spacing x search iterations, each meshed under a drawn list of configurations (GOMAXPROCS in {1,2,3,5,8,16} set in-process; conservative region filters: always-true, an independent exact/conservative 'boundary meets box' predicate, the same dilated by a random margin, the same OR-ed with random acceptances; coarse spacings k*delta; dual-contouring MaxGos in {0,1,2,7} x BufferSize from below the 4-row minimum upwards) and compared face-by-face (exact coordinates) with a GOMAXPROCS=1 unfiltered reference run, which is also repeated. Rasteriser: filtered / collider entry points against the unfiltered RasterizeSolid over scale, subsamples, line width and explicit bounds. Non-trivial: non-empty output and (>= 3 z-slabs / >= 3 leaf blocks / >= 3 buffer windows, or the filter rejected >= 1 region). Distinct: hash of the JSON case."
+const rule = "solids (CSG trees of primitives, trilinear random fields, lattice-defined solids, lattice-aligned box arrangements; feature-size-controlled unions and satellites at the edge of the dilation for coarse-to-fine) x spacing x search iterations, each meshed under a drawn list of configurations (GOMAXPROCS in {1,2,3,5,8,16} set in-process; conservative region filters: always-true, an independent exact/conservative 'boundary meets box' predicate, the same dilated by a random margin, the same OR-ed with random acceptances; coarse spacings k*delta; dual-contouring MaxGos in {0,1,2,7} x BufferSize from below the 4-row minimum upwards) and compared face-by-face (exact coordinates) with a GOMAXPROCS=1 unfiltered reference run, which is also repeated. Rasteriser: filtered / collider entry points against the unfiltered RasterizeSolid over scale, subsamples, line width and explicit bounds. Non-trivial: non-empty output and (>= 3 z-slabs / >= 3 leaf blocks / >= 3 buffer windows, or the filter rejected >= 1 region; coarse-to-fine: part of the fine lattice was never sampled, or the sufficient precondition fails with half of the built-in dilation). Distinct: hash of the JSON case."
 
 func TestProp(t *testing.T) {
 	kit.Run(t, "C12", rule,
